@@ -414,7 +414,9 @@ static int _GD_Change(DIRFILE *D, const char *field_code, const gd_entry_t *N,
         if (D->error)
           break;
 
-        /* Create a temporary file and open it */
+        /* Create a temporary file and open it; it has the encoding of the
+         * old file (and must be closed by that encoding's close method) */
+        E->e->u.raw.file[1].subenc = E->e->u.raw.file[0].subenc;
         if (_GD_InitRawIO(D, E, NULL, -1, enc, 0, GD_FILE_WRITE | GD_FILE_TEMP,
               _GD_FileSwapBytes(D, E)))
           break;
@@ -447,6 +449,11 @@ static int _GD_Change(DIRFILE *D, const char *field_code, const gd_entry_t *N,
 
           ns_out = nread * Q.EN(raw,spf) / E->EN(raw,spf);
 
+          /* the type conversion works on native-endian data */
+          if (enc->flags & GD_EF_ECOR)
+            _GD_FixEndianness(buffer1, nread, E->EN(raw,data_type),
+                D->fragment[E->fragment_index].byte_sex, 0);
+
           /* spf convert */
           if (Q.EN(raw,spf) != E->EN(raw,spf))
             _GD_SPFConvert(D, buffer2, Q.EN(raw,spf), buffer1, E->EN(raw,spf),
@@ -466,6 +473,10 @@ static int _GD_Change(DIRFILE *D, const char *field_code, const gd_entry_t *N,
             buffer1 = buffer2;
             buffer2 = ptr;
           }
+
+          if (enc->flags & GD_EF_ECOR)
+            _GD_FixEndianness(buffer1, ns_out, Q.EN(raw,data_type), 0,
+                D->fragment[E->fragment_index].byte_sex);
 
           nwrote = _GD_WriteOut(E, enc, buffer1, Q.EN(raw,data_type), ns_out,
               1);
@@ -492,6 +503,7 @@ static int _GD_Change(DIRFILE *D, const char *field_code, const gd_entry_t *N,
         }
       }
       memcpy(Qe.u.raw.file, E->e->u.raw.file, sizeof(struct gd_raw_file_));
+      Qe.u.raw.size = GD_SIZE(Q.EN(raw,data_type));
 
       break;
     case GD_LINCOM_ENTRY:
